@@ -21,22 +21,29 @@ func (s *Store) snapshotPrevious(ss Snapshot) (Snapshot, error) {
 	slocs, _ := footer.segmentLocs()
 	defer footer.DecRef()
 
-	if len(slocs) <= 0 {
-		return nil, nil
-	}
+	var fref *FileRef
 
-	mref := slocs[0].mref
-	if mref == nil {
-		return nil, fmt.Errorf("footer mref nil")
-	}
+	if len(slocs) > 0 {
+		mref := slocs[0].mref
+		if mref == nil {
+			return nil, fmt.Errorf("footer mref nil")
+		}
 
-	mref.m.Lock()
-	if mref.refs <= 0 {
-		mref.m.Unlock()
-		return nil, fmt.Errorf("footer mmap has 0 refs")
+		mref.m.Lock()
+		if mref.refs <= 0 {
+			mref.m.Unlock()
+			return nil, fmt.Errorf("footer mmap has 0 refs")
+		}
+		fref = mref.fref
+		mref.m.Unlock() // Safe since the file beneath the mmap cannot change.
+	} else {
+		// The top-level collection has no persisted segments, but the
+		// segments of a child collection lead to the file as well.
+		fref = footer.childFileRef()
+		if fref == nil {
+			return nil, nil
+		}
 	}
-	fref := mref.fref
-	mref.m.Unlock() // Safe since the file beneath the mmap cannot change.
 
 	if fref == nil {
 		return nil, fmt.Errorf("footer fref nil")
